@@ -1,12 +1,257 @@
 /-
-C14 — SNA save then load restores the machine; saving is side-effect free.
-(theorems are being added; see Lemmas/Snapshot.lean)
+C14 — Loading a well-formed SNA / SZX / SCR file yields exactly the described state.
+
+Only property theorems live here (helper lemmas: ZxVerif/Lemmas/Snapshot.lean, Szx.lean).
+Model : ZxVerif/Model/Snapshot.lean (`szxLoad`, `snaLoad`, `scrLoad`; `inflate` is a parameter)
+Spec  : ZxVerif/Spec/Snapshot.lean (`describeSzx`, `describeSna`, `describeScr`: what a file says,
+        written from the format documents; `abs` maps a model machine to the abstract state)
+`Fixes.all` = the code with the candidate repairs, `Fixes.none` = the code as it is in /repo.
 -/
-import ZxVerif.Spec.Snapshot
+import ZxVerif.Lemmas.Szx
 namespace ZxVerif.C14
 open ZxVerif.Snap
 
-/-- The writer's header has 27 bytes. -/
-theorem header_length (fx : Fixes) (m : Machine) : (snaHeader fx m).length = 27 := rfl
+/-! ### a file for the other model is rejected -/
+
+/-- **Mismatch, SNA (repaired code).** A file whose size says "128K" offered to a 48K machine, or
+a 48K-sized file offered to a 128K machine, is rejected with `MachineNotSupported`; nothing is applied. -/
+theorem model_mismatch_rejected_sna (f : Bytes) (r : Machine) (hlen : sna48Size ≤ f.length)
+    (hmis : decide (sna48Size < f.length) ≠ (r.kind == .k128)) :
+    snaLoad Fixes.all f r = .error .machineNotSupported := by
+  unfold snaLoad
+  have h1 : ¬ f.length < sna48Size := by omega
+  rw [if_neg h1]
+  have : (Fixes.all.rejectMismatch && (decide (sna48Size < f.length) != (r.kind == Kind.k128))) = true := by
+    simp only [Fixes.all, Bool.true_and, bne_iff_ne, ne_eq]
+    exact hmis
+  simp only [this, if_true]
+
+/-- **Mismatch, SZX (repaired code).** A ZXST file whose machine id is for the other model is
+rejected with `MachineNotSupported`, whatever its chunks are and whatever `inflate` does. -/
+theorem model_mismatch_rejected_szx (inflate : Bytes → Option Bytes) (f : Bytes) (r : Machine)
+    (hlen : 8 ≤ f.length) (hmagic : f.take 4 = magicZXST) (hmid : (f.getD 6 0).toNat ≤ 2)
+    (hmis : decide (2 ≤ (f.getD 6 0).toNat) ≠ (r.kind == .k128)) :
+    szxLoad Fixes.all inflate f r = .error .machineNotSupported := by
+  unfold szxLoad
+  have h1 : ¬ f.length < 8 := by omega
+  have h2 : ¬ 2 < (f.getD 6 0).toNat := by omega
+  rw [if_neg h1, if_neg (by simpa using hmagic)]
+  simp only [h2, if_false]
+  have : (Fixes.all.rejectMismatch && (decide (2 ≤ (f.getD 6 0).toNat) != (r.kind == Kind.k128))) = true := by
+    simp only [Fixes.all, Bool.true_and, bne_iff_ne, ne_eq]
+    exact hmis
+  simp only [this, if_true]
+
+/-- **Defect #6 is real (128K file, 48K machine).** The code as it is panics: after the header it
+asks for RAM page 5 of a machine that has three pages. -/
+theorem code_panics_on_128k_sna_in_48k (f : Bytes) (r : Machine) (hk : r.kind = .k48)
+    (hlen : sna48Size + 4 ≤ f.length) (him : ((f.take snaHeaderSize).getD 25 0 &&& 3).toNat ≠ 3) :
+    snaLoad Fixes.none f r = .error .panic := by
+  unfold snaLoad
+  have h1 : ¬ f.length < sna48Size := by omega
+  have h2 : sna48Size < f.length := by omega
+  have hrm : Fixes.none.rejectMismatch = false := rfl
+  rw [if_neg h1, hrm]
+  simp only [Bool.false_and, Bool.false_eq_true, if_false, h2, decide_true, if_true]
+  obtain ⟨m, hm⟩ := snaLoadHeader_isSome (f.take snaHeaderSize) { r with cpu := r.cpu.resetExec Fixes.none } him
+  rw [hm]
+  have hkm : m.kind = .k48 := by
+    rw [(snaLoadHeader_exec _ _ _ hm).2.2.2.1]; exact hk
+  exact snaLoad128_panics_48k _ f m hkm hlen
+
+/-- **Defect #6 is real (48K file, 128K machine).** The code as it is returns `Ok` and fills RAM
+banks 0, 1, 2: bank 5 — what the CPU and the display see at 0x4000 — is still the old machine's. -/
+theorem code_misplaces_48k_sna_in_128k (f : Bytes) (r : Machine) (hk : r.kind = .k128)
+    (hlen : f.length = sna48Size) (him : ((f.take snaHeaderSize).getD 25 0 &&& 3).toNat ≠ 3) :
+    ∃ m', snaLoad Fixes.none f r = .ok m' ∧ m'.ram 5 = r.ram 5 ∧ m'.kind = .k128 := by
+  unfold snaLoad
+  have h1 : ¬ f.length < sna48Size := by omega
+  have h2 : ¬ sna48Size < f.length := by omega
+  have hrm : Fixes.none.rejectMismatch = false := rfl
+  rw [if_neg h1, hrm]
+  simp only [Bool.false_and, Bool.false_eq_true, if_false, h2, decide_false]
+  obtain ⟨m, hm⟩ := snaLoadHeader_isSome (f.take snaHeaderSize) { r with cpu := r.cpu.resetExec Fixes.none } him
+  rw [hm]
+  have hkm : m.kind = .k128 := by
+    rw [(snaLoadHeader_exec _ _ _ hm).2.2.2.1]; exact hk
+  have hram : m.ram = r.ram := by
+    unfold snaLoadHeader at hm
+    simp only at hm
+    split at hm
+    · cases hm
+    · cases hm; rfl
+  obtain ⟨m3, e1, e2, ram', e3⟩ := readBanks_ok f [0, 1, 2] snaHeaderSize m
+    (by intro b hb; simp [Machine.ramPages, hkm]; simp at hb; omega)
+    (by simp [snaHeaderSize, pageSize, hlen, sna48Size])
+  show ∃ m', snaLoad48 f m = .ok m' ∧ _
+  unfold snaLoad48
+  rw [e1]
+  refine ⟨m3.popPc.refresh, rfl, ?_, ?_⟩
+  · rw [(refresh_same _).2.2.2.1]
+    show m3.ram 5 = _
+    rw [e2 5 (by simp), hram]
+  · rw [(refresh_same _).2.2.2.2.2.2.2.2.2]
+    show m3.kind = _
+    rw [e3]; exact hkm
+
+/-! ### SCR -/
+
+/-- **C14, SCR.** Loading a 6912-byte screen file into either machine succeeds; the first 6912
+bytes of the page at 0x4000 (page 5; on the 48K the first RAM page) are then the file — for the
+CPU and for the display alike — and the rest of that page is unchanged. -/
+theorem scr_is_screen (f : Bytes) (r : Machine) (hlen : f.length = scrSize) :
+    ∃ m' b, r.page 1 = .ram b ∧ scrLoad f r = .ok m' ∧
+      (m'.ram b).take scrSize = f ∧ (m'.ram b).drop scrSize = (r.ram b).drop scrSize ∧
+      (m'.displayable b = true → m'.scr b = m'.ram b) := by
+  have hne : ¬ f.length ≠ scrSize := by simp [hlen]
+  -- the three bytes of the parking loop go to another bank
+  have hw : ∀ (m : Machine) (a : BitVec 16) (v : Byte) (b : Nat), m.page (a.toNat / pageSize) ≠ .ram b →
+      (m.write a v).ram b = m.ram b := by
+    intro m a v b hb
+    unfold Machine.write
+    split
+    · next n hn =>
+      have : b ≠ n := by intro h; subst h; exact hb hn
+      simp [setBank, this]
+    · rfl
+  have hpg : ∀ (m : Machine) (a : BitVec 16) (v : Byte) (k : Nat), (m.write a v).page k = m.page k := by
+    intro m a v k
+    have h1 := write_kind m a v
+    unfold Machine.page
+    rw [h1]
+    have : (m.write a v).map0 = m.map0 ∧ (m.write a v).map3 = m.map3 := by
+      unfold Machine.write; split <;> exact ⟨rfl, rfl⟩
+    rw [this.1, this.2]
+  cases hk : r.kind with
+  | k48 =>
+    have hp : r.page 1 = .ram 0 := by simp [Machine.page, hk]
+    have h2 : r.page 2 = .ram 1 := by simp [Machine.page, hk]
+    refine ⟨scrApply f r 0, 0, hp, ?_, ?_, ?_, ?_⟩
+    · unfold scrLoad; rw [if_neg hne, hp]
+    · unfold scrApply; rw [(refresh_same _).2.2.2.1]; simp [setBank, hlen.symm ▸ List.take_left' rfl]
+    · unfold scrApply; rw [(refresh_same _).2.2.2.1]
+      simp only [setBank, if_true, List.drop_left' hlen]
+      congr 1
+      rw [hw _ _ _ _ (by rw [hpg, hpg]; simp [pageSize, h2]), hw _ _ _ _ (by rw [hpg]; simp [pageSize, h2]),
+        hw _ _ _ _ (by simp [pageSize, h2])]
+    · intro _
+      unfold scrApply
+      rw [(refresh_same _).2.2.2.1]
+      exact refresh_scr48 _ (by
+        show (((r.write 0x8000 0xC3).write 0x8001 0x00).write 0x8002 0x80).kind = _
+        rw [write_kind, write_kind, write_kind]; exact hk)
+  | k128 =>
+    have hp : r.page 1 = .ram 5 := by simp [Machine.page, hk]
+    have h2 : r.page 2 = .ram 2 := by simp [Machine.page, hk]
+    refine ⟨scrApply f r 5, 5, hp, ?_, ?_, ?_, ?_⟩
+    · unfold scrLoad; rw [if_neg hne, hp]
+    · unfold scrApply; rw [(refresh_same _).2.2.2.1]; simp [setBank, hlen.symm ▸ List.take_left' rfl]
+    · unfold scrApply; rw [(refresh_same _).2.2.2.1]
+      simp only [setBank, if_true, List.drop_left' hlen]
+      congr 1
+      rw [hw _ _ _ _ (by rw [hpg, hpg]; simp [pageSize, h2]), hw _ _ _ _ (by rw [hpg]; simp [pageSize, h2]),
+        hw _ _ _ _ (by simp [pageSize, h2])]
+    · intro _
+      unfold scrApply
+      rw [(refresh_same _).2.2.2.1]
+      exact (refresh_scr128 _ (by
+        show (((r.write 0x8000 0xC3).write 0x8001 0x00).write 0x8002 0x80).kind = _
+        rw [write_kind, write_kind, write_kind]; exact hk)).1
+
+/-! ### SZX: load = describe -/
+
+/-- **C14, SZX (repaired code).** For every byte string `f` that is a well-formed zx-state file for
+the receiver's model — i.e. the spec's `describeSzx` accepts it: header, then chunks in ANY order,
+unknown chunks anywhere, each RAM page stored or compressed (with whatever `inflate` is), pages
+possibly missing — and for every state `r` of the receiving emulator (halted, mid prefix chain,
+paging locked, anything in RAM, any AY state): loading succeeds and the abstract state of the
+result is exactly what the file describes on top of `r`; the display cache agrees with RAM.
+`HALTED` is read as "PC at the HALT opcode" here; see `szx_halted_reading` for the other reading. -/
+theorem szx_load_is_describe (inflate : Bytes → Option Bytes) (f : Bytes) (r : Machine) (a : Spec.AState)
+    (hchip : r.ayChip.length = 14) (h48 : r.kind = .k48 → r.pagingEnabled = false)
+    (hd : Spec.describeSzx .pcAtHalt inflate f (Spec.abs r) = some a) (hk : a.model = r.kind) :
+    ∃ m, szxLoad Fixes.all inflate f r = .ok m ∧ Spec.abs m = a ∧
+      (∀ b, m.displayable b = true → m.scr b = m.ram b) := by
+  unfold Spec.describeSzx at hd
+  cases hmid : Spec.szxMachine f with
+  | none => rw [hmid] at hd; cases hd
+  | some mid =>
+    rw [hmid] at hd
+    simp only at hd
+    cases hcs : Spec.parseChunks f.length (f.drop 8) with
+    | none => rw [hcs] at hd; cases hd
+    | some cs =>
+      rw [hcs] at hd
+      simp only at hd
+      split at hd
+      · next hall =>
+        simp only [Option.some.injEq] at hd
+        -- header facts
+        unfold Spec.szxMachine at hmid
+        split at hmid
+        · cases hmid
+        · next hhdr =>
+          split at hmid
+          · cases hmid
+          · next hle =>
+            simp only [Option.some.injEq] at hmid
+            have hlen : ¬ f.length < 8 := by
+              intro h; exact hhdr (Or.inl h)
+            have hmagic : ¬ f.take 4 ≠ magicZXST := by
+              intro h; exact hhdr (Or.inr h)
+            -- the start state
+            let r0 : Machine := { r with cpu := r.cpu.resetExec Fixes.all }
+            have hI0 : Inv r0 := ⟨hchip, h48, rfl⟩
+            have hkr : r.kind = Spec.kindOfMid mid := by
+              rw [← hk, ← hd]
+              rw [foldl_applyChunk_model]
+            obtain ⟨m, w1, w2, w3, w4⟩ := walk_sim inflate mid f.length (f.drop 8) r0 cs hI0 hkr hcs hall
+            have habs0 : Spec.abs r0 = { (Spec.abs r).atBoundary with model := Spec.kindOfMid mid } := by
+              simp only [Spec.abs, Spec.AState.atBoundary, r0, Cpu.resetExec, Fixes.all, if_true]
+              simp [hkr, Spec.absRegs]
+            refine ⟨m.refresh, ?_, ?_, ?_⟩
+            · unfold szxLoad
+              rw [if_neg hlen, if_neg hmagic]
+              rw [hmid] at hle
+              simp only [hmid, hle, if_false]
+              have hrej : (Fixes.all.rejectMismatch && (decide (2 ≤ mid) != (r.kind == Kind.k128))) = false := by
+                rw [hkr]
+                unfold Spec.kindOfMid
+                by_cases h2 : mid < 2
+                · have : ¬ 2 ≤ mid := by omega
+                  simp [h2, this]
+                · have : 2 ≤ mid := by omega
+                  simp [h2, this]
+              rw [hrej]
+              simp only [Bool.false_eq_true, if_false]
+              show (match szxWalk Fixes.all inflate mid f.length (f.drop 8) r0 with
+                | .error e => Except.error e
+                | .ok m => Except.ok m.refresh) = _
+              rw [w1]
+            · have : Spec.abs m.refresh = Spec.abs m := by
+                obtain ⟨f1, f2, f3, f4, f5, f6, _, _, _, f10⟩ := refresh_same m
+                have hay : m.refresh.ayRegs = m.ayRegs ∧ m.refresh.aySel = m.aySel ∧ m.refresh.ayChip = m.ayChip ∧
+                    m.refresh.ayEnabled = m.ayEnabled ∧ m.refresh.mouse = m.mouse := by
+                  unfold Machine.refresh; split <;> exact ⟨rfl, rfl, rfl, rfl, rfl⟩
+                simp only [Spec.abs, f1, f2, f3, f4, f5, f6, f10, hay.1, hay.2.1, hay.2.2.1, hay.2.2.2.1, hay.2.2.2.2]
+              rw [this, w4, habs0, ← hd]
+            · intro b hb
+              have hkm : m.refresh.kind = m.kind := (refresh_same m).2.2.2.2.2.2.2.2.2
+              unfold Machine.displayable at hb
+              rw [hkm] at hb
+              rw [(refresh_same m).2.2.2.1]
+              cases hkk : m.kind with
+              | k48 =>
+                rw [hkk] at hb
+                have : b = 0 := by simpa using hb
+                subst this
+                exact refresh_scr48 m hkk
+              | k128 =>
+                rw [hkk] at hb
+                simp only [Bool.or_eq_true, beq_iff_eq] at hb
+                rcases hb with h | h <;> subst h
+                · exact (refresh_scr128 m hkk).1
+                · exact (refresh_scr128 m hkk).2
+      · cases hd
 
 end ZxVerif.C14
